@@ -1,4 +1,4 @@
-import UrcuVerif.Src.SyncGp
+import UrcuVerif.Src.SyncSync
 /-!
 # Source refinement, grace-period updater side (memb / mb): final statements
 
@@ -74,6 +74,57 @@ theorem mb_wait_for_readers_refines (trk : Bool) (fuel : Nat) (hd : Loc) (csv gv
       lrun ss.ls labs = some ss'.ls ∧ WfrPost (mbCtx hd csv gv g upc) out.ctl out.env ss' wins' := by
   have := (Ok_iff _ _ _ _ _).1 (mb_wfr_holds trk fuel hd csv gv g upc env inp ss wins hP out h)
   exact ⟨this.1, fun labs ss' wins' ha => ⟨absRun_lrun _ _ _ _ _ _ _ ha, this.2 labs ss' wins' ha⟩⟩
+
+/-! ## `synchronize_rcu`
+
+Precondition `PI`: the updater automaton is at pc `idle` with phase `g`, no move pending, `rcu_gp.ctr = URCU_GP_COUNT + phase g`
+in the private view, the configuration globals set (memb).  ASSUMED (`QueueQuiet`): the five wait-queue call statements are
+silent for the Flip checker (their refinement belongs to the wait-queue / wfstack components).  Conclusion: the events are
+accepted – lock order `rcu_gp_lock` → `rcu_registry_lock` (window), `cds_list_empty(&registry)` ↦ `uStartEmpty` / `uStart`,
+then master barrier `uMbarRet` → pass 1 → `uFlip` → pass 2 → splice `uP2Done` → master barrier `uEnd` – and a completed
+call (leader: `normal`, non-leader: `return`) leaves the automaton at pc `idle`. -/
+
+theorem memb_synchronize_rcu_refines (trk : Bool) (fuel : Nat) (hq : QueueQuiet trk MembPre) (g : Bool) (env : Env)
+    (inp : List Val) (ss : SS) (wins : Wins) (out : Out) (hI : PI MembPre g (fun _ => True) env ss)
+    (h : exec fuel Gen.Src.«memb.synchronize_rcu» env inp = .ok out) :
+    absRun trk ss wins out.events ≠ .bad ∧
+    ∀ labs ss' wins', absRun trk ss wins out.events = .ok labs ss' wins' →
+      lrun ss.ls labs = some ss'.ls ∧ SyncPost out.ctl out.env ss' wins' := by
+  have := (Ok_iff _ _ _ _ _).1 (memb_sync_holds trk fuel hq g env inp ss wins hI out h)
+  exact ⟨this.1, fun labs ss' wins' ha => ⟨absRun_lrun _ _ _ _ _ _ _ ha, this.2 labs ss' wins' ha⟩⟩
+
+theorem mb_synchronize_rcu_refines (trk : Bool) (fuel : Nat) (hq : QueueQuiet trk (fun _ => True)) (g : Bool) (env : Env)
+    (inp : List Val) (ss : SS) (wins : Wins) (out : Out) (hI : PI (fun _ => True) g (fun _ => True) env ss)
+    (h : exec fuel Gen.Src.«mb.synchronize_rcu» env inp = .ok out) :
+    absRun trk ss wins out.events ≠ .bad ∧
+    ∀ labs ss' wins', absRun trk ss wins out.events = .ok labs ss' wins' →
+      lrun ss.ls labs = some ss'.ls ∧ SyncPost out.ctl out.env ss' wins' := by
+  have := (Ok_iff _ _ _ _ _).1 (mb_sync_holds trk fuel hq g env inp ss wins hI out h)
+  exact ⟨this.1, fun labs ss' wins' ha => ⟨absRun_lrun _ _ _ _ _ _ _ ha, this.2 labs ss' wins' ha⟩⟩
+
+/-- the grace period proper (`gpBlock`, no assumption): from pc `mbar1` to pc `idle` with the phase flipped -/
+theorem memb_grace_period_refines (trk : Bool) (fuel : Nat) (g : Bool) (vars : String → Option Val) (env : Env)
+    (inp : List Val) (ss : SS) (wins : Wins) (hI : GInv MembPre .mbar1 g (fun _ => True) vars env ss) :
+    Holds trk (exec fuel (gpBlock Gen.Src.«memb.smp_mb_master» Gen.Src.«memb.wait_for_readers») env inp) ss wins
+      (GPost MembPre .idle (!g) (fun _ => True) vars) :=
+  gpBlock_holds trk fuel _ _ MembPre (memb_master_spec trk) (memb_wfr_spec trk) MembPre_stable g vars env inp ss wins hI
+
+/-- a whole grace period over one reader that is inactive: the label sequence of L2 -/
+example : absRun false ⟨{ upc := .idle, gp := false, reg := [0], inp := [], snap := [], qs := [] }, none⟩ [[]]
+    [.ext "mutex_lock" [.ptr (.glob "rcu_gp_lock")] (.int 0), .ext "mutex_lock" [.ptr regLock] (.int 0),
+     .ext "cds_list_empty" [.ptr registry] (.int 0), .fence .mb,
+     .ext "cds_list_for_each_entry_safe.first" [.ptr registry] (.ptr (.obj 0)),
+     .ext "cds_list_for_each_entry_safe.next" [.ptr registry, .ptr (.obj 0)] (.int 0),
+     .ld (.field (.obj 0) "ctr") (.int 0) 0,
+     .ext "cds_list_move" [.ptr (.field (.obj 0) "node"), .ptr qsr] (.int 0),
+     .ext "cds_list_empty" [.ptr registry] (.int 1), .fence .barrier, .fence .mb,
+     .st gpCtr (.int 4294967297) 0, .fence .barrier, .fence .mb,
+     .ext "cds_list_for_each_entry_safe.first" [.ptr curSnap] (.int 0),
+     .ext "cds_list_empty" [.ptr curSnap] (.int 1),
+     .ext "cds_list_splice" [.ptr qsr, .ptr registry] (.int 0), .fence .mb,
+     .ext "mutex_unlock" [.ptr regLock] (.int 0)] =
+    .ok [.uStart false, .uMbarRet false, .uScan1Inactive 0 (0, false), .uFlip true, .uP2Done, .uEnd false]
+      ⟨{ upc := .idle, gp := true, reg := [0], inp := [], snap := [], qs := [0] }, none⟩ [] := by decide
 
 /-! ## the discipline is the behaviour of real lists -/
 
